@@ -700,16 +700,27 @@ def run(tier):
         # no-op documents return the identical object
         noops = ["{ a }", "query Q { __typename }", "fragment F on %s { __typename }" % spec.query,
                  "query { ...F } fragment F on %s { __typename }" % spec.query]
-        for nd in noops:
-            try:
-                r = extend_schema(s, parse(nd))
-            except Exception as e:  # noqa: BLE001
-                viol("noop:" + nd + ":" + sdl_a, f"extend_schema with executable-only document raised {type(e).__name__}: {e}",
-                     {"relation": "noop identity", "sdl_a": sdl_a, "document": nd})
-                continue
-            if r is not s:
-                viol("noop:" + nd + ":" + sdl_a, "extend_schema with a document without type-system definitions did "
-                     "not return the original schema object", {"relation": "noop identity", "sdl_a": sdl_a, "document": nd})
+        from graphql.language import DocumentNode
+        noop_docs = [(nd, parse(nd)) for nd in noops] + [("<empty document>", DocumentNode(definitions=()))]
+        bases = [("build_schema(A)", s)]
+        if len(ecases) % 3 == 0:
+            bases.append(("build_schema(A, assume_valid=True)", build_schema(sdl_a, assume_valid=True)))
+        for bname, base in bases:
+            for nd, ndoc in noop_docs:
+                # under every combination of the options of extend_schema
+                for av, avs in ((False, False), (True, False), (False, True), (True, True)):
+                    nkey = f"noop:{nd}:{bname}:{av}:{avs}:{sdl_a}"
+                    nrep = {"relation": "noop identity", "sdl_a": sdl_a, "document": nd, "base": bname,
+                            "assume_valid": av, "assume_valid_sdl": avs}
+                    try:
+                        r = extend_schema(base, ndoc, assume_valid=av, assume_valid_sdl=avs)
+                    except Exception as e:  # noqa: BLE001
+                        viol(nkey, f"extend_schema with a document without type-system definitions raised "
+                             f"{type(e).__name__}: {e}", nrep)
+                        continue
+                    if r is not base:
+                        viol(nkey, "extend_schema with a document without type-system definitions did not return the "
+                             f"original schema object (assume_valid={av}, assume_valid_sdl={avs}, base {bname})", nrep)
         # adding one scalar: exactly one TYPE_ADDED
         try:
             r = extend_schema(s, parse("scalar ZzAdded"))
